@@ -229,7 +229,7 @@ func runC08(tier string) int {
 	r.Assume("an inline body must be emitted exactly like 'script(local) <name> { body }' (differential; C01 decides the behaviour of script statements)",
 		"inline names are <map>_<TYPE> and <map>_<TYPE>_<index>; texts inside bodies are distinct per entry so that no label is shared across entries")
 	return r.Finish(r.Get("evaluations"), r.Get("nontrivial"),
-		"every mapscripts statement with <= N entries over {plain, inline with 9 body kinds incl. arguments that contain '%', table with <= T entries over plain / inline entries with simple and multi-token var/value (the multi-token ones mention constants)} x scope {none, global, local} x optimize on/off, incl. the empty statement and empty tables; plus tables with K entries and headers with K entries for every K up to the bound in the coverage; header, table and inline-script blocks are compared with the generator's expectation and with the standalone compilation of the same body; non-trivial = the statement has a table and an inline entry")
+		"every mapscripts statement with <= N entries over {plain, inline with 9 body kinds incl. arguments that contain '%', table with <= T entries over plain / inline entries with simple and multi-token var/value (the multi-token ones mention constants)} x scope {none, global, local} x optimize on/off, incl. the empty statement and empty tables; plus tables with K entries and headers with K entries for every K up to the bound in the coverage; each statement also compiled with every dispensable white space removed; header, table and inline-script blocks are compared with the generator's expectation and with the standalone compilation of the same body; non-trivial = the statement has a table and an inline entry")
 }
 
 func c08Eval(r *harness.Run, entries []c08Entry, scope string, opt bool, sw map[string]string) {
@@ -324,6 +324,12 @@ func c08Eval(r *harness.Run, entries []c08Entry, scope string, opt bool, sw map[
 	if res.Err != nil || res.Panic != "" {
 		fail("C08:rejected:"+firstWords(fmt.Sprint(res.Err), 5), fmt.Sprintf("well-formed mapscripts rejected: %v %s", res.Err, firstLine(res.Panic)))
 		return
+	}
+	// the same statement with every dispensable white space removed ('T0[', 'LT0_0]', 'VAR_T0,0{') is the same statement
+	if !opt {
+		// (layout is independent of the optimizer: one setting suffices)
+	} else if tight := comp.Compile(tightLayout(src), o); tight.Err != nil || tight.Panic != "" || tight.Out != res.Out {
+		fail("C08:tight-layout", fmt.Sprintf("the statement written without dispensable white space gives another result (%v %s): %s", tight.Err, firstLine(tight.Panic), firstDiff(tight.Out, res.Out)))
 	}
 	// header
 	head := "M::"
